@@ -15,9 +15,9 @@ void harness_init() {}
 size_t harness_max_len() { return 900; }
 
 enum Dev { E_CORRECT, E_WRONG_ID, E_NO_STATUS_WRONG_ID, E_OTHER_PUBTIME, E_OTHER_AGGRTIME, E_AGGRTIME_OMITTED, E_SHAPE_FLIP, E_OTHER_INPUT, E_RIGHT_LINK_ALTERED, E_RIGHT_TO_LEFT, E_EXTRA_RIGHT_LINK, E_MISSING_RIGHT_LINK,
-           E_STATUS, E_ERROR_PDU, E_BAD_MAC, E_TRUNCATED, E_NO_CHAIN, E_LEFT_LINK_ALTERED, E_COUNT };
+           E_STATUS, E_ERROR_PDU, E_BAD_MAC, E_TRUNCATED, E_NO_CHAIN, E_LEFT_LINK_ALTERED, E_NO_MAC, E_NO_HEADER, E_COUNT };
 static const char *kDevName[] = {"correct", "wrong-id", "no-status-wrong-id", "other-pub-time", "other-aggr-time", "aggr-time-omitted", "shape-flip", "other-input-hash", "right-link-altered", "right-link-to-left", "extra-right-link", "missing-right-link",
-                                 "status", "error-pdu", "bad-mac", "truncated", "no-chain", "left-link-altered"};
+                                 "status", "error-pdu", "bad-mac", "truncated", "no-chain", "left-link-altered", "no-mac-element", "no-header"};
 enum Api { X_EXTEND_TO, X_EXTEND_PUBREC, X_ASYNC, X_COUNT };
 static const char *kApiName[] = {"extendTo", "extend(pubRec)", "async"};
 enum Target { T_HEAD, T_EQUAL, T_LATER, T_EARLIER };
@@ -66,7 +66,8 @@ void harness_case(Dec &d, Case &c) {
         }
         replied = cc; repliedSet = true; Bytes pdu;
         if (dev == E_ERROR_PDU) { Tlv e = errorPayload(ver, false, status, "err"); pdu = ver == 1 ? sealV1(0x300, h, e, keyB, macAlg) : sealV2(0x321, h, {e}, keyB, macAlg); }
-        else { Tlv pl = extRespPayload(ver, rid, hasStatus, dev == E_STATUS ? status : 0, dev == E_STATUS ? "failure" : "", dev == E_NO_CHAIN ? nullptr : &cc, d.flag(), head); pdu = ver == 1 ? sealV1(0x300, h, pl, keyB, macAlg) : sealV2(0x321, h, {pl}, keyB, macAlg); }
+        else { if ((dev == E_NO_MAC || dev == E_NO_HEADER) && d.flag()) { std::vector<size_t> idx; for (size_t i = 0; i < cc.links.size(); i++) if (cc.links[i].isLeft) idx.push_back(i); if (!idx.empty()) flipByte(cc.links[idx[d.pick((uint32_t)idx.size())]].sib, d); } // an unauthenticated reply may carry anything
+            Tlv pl = extRespPayload(ver, rid, hasStatus, dev == E_STATUS ? status : 0, dev == E_STATUS ? "failure" : "", dev == E_NO_CHAIN ? nullptr : &cc, d.flag(), head); bool wh = dev != E_NO_HEADER, wm = dev != E_NO_MAC; pdu = ver == 1 ? sealV1(0x300, h, pl, keyB, macAlg, wh, wm) : sealV2(0x321, h, {pl}, keyB, macAlg, wh, wm); }
         if (dev == E_BAD_MAC) pdu[pdu.size() - 1 - d.pick(8)] ^= 1;
         return pdu; };
     if (dev == E_TRUNCATED) srv.truncateReplyAt = 3 + (long)d.pick(80); srv.attach();
